@@ -49,6 +49,10 @@ func budgetFor(src string) time.Duration {
 }
 
 func apiCase(src string, hv int, tag string) Case {
+	if guardBegin(fmt.Sprintf("api[%s] env#%d %q", tag, hv, src)) {
+		return crashCase(fmt.Sprintf("api[%s] env#%d %q", tag, hv, src))
+	}
+	defer guardEnd()
 	human := src
 	if len(human) > 120 {
 		human = human[:120] + fmt.Sprintf("…(%d bytes)", len(src))
@@ -103,6 +107,10 @@ func mapKeyNest(d int) string {
 
 // growthCase measures parse time of a family at increasing depth and flags super-polynomial growth.
 func growthCase(name string, gen func(d int) string, depths []int, id string) Case {
+	if guardBegin("growth "+name) {
+		return crashCase("growth " + name)
+	}
+	defer guardEnd()
 	c := Case{Human: "growth " + name, Tags: []string{"api:growth"}, Nontriv: true}
 	var times []time.Duration
 	var report []string
